@@ -216,7 +216,7 @@ CHECKS["C12"] = {
             "doubles / powers of two and the LearnerND bookkeeping clause are decided by the paired run on the real code (partial: rounding outside "
             "the theorems). Search: "
             "paired real learners, factors 2^k, k in [-30, 30], compared bit for bit at every step; generic factors to 1e-6.",
-    "design_ref": "DESIGN.md section 6 C12", "note": _L1D_NOTE + " One LearnerND defect found here was repaired by a fix: commit; one is a recorded finding (absolute log-det cut).", "technique": T,
+    "design_ref": "DESIGN.md section 6 C12", "note": _L1D_NOTE + " One LearnerND defect found here was repaired by a fix: commit; recorded findings: absolute log-det cut, ulp-level differences, a tie between equal sub-simplex priorities broken by the (scale dependent) iteration order of a set of float tuples.", "technique": T,
 }
 CHECKS["C20"] = {
     "level": "proof",
@@ -346,7 +346,8 @@ CHECKS["C04"] = {
             "(C03), ChooseGeom (truthful choose / point_in_simplex / sub-triangulation insert) and AskNew (the chosen point has no value; "
             "derived from ChooseLocal + DataBound) for completeness, the former ghost flag is now a theorem (lnd_chosen_subdivided, lnd_ghost_true); remove_unfinished covered since fix e79ba45. Known findings: pending point on "
             "a hull face re-proposed (ValueError), degenerate triangulation for 1e6-aspect boxes, a sub-simplex piece below the "
-            "triangulation's flatness threshold is not created (deficit ~4e-7 of the volume).",
+            "triangulation's flatness threshold is not created (deficit ~4e-7 of the volume), overlapping sub-simplices in boxes of aspect ratio >= 100 "
+            "(the in-circle band of C03; confirmed per case by a shadow run without the band).",
     "technique": T,
 }
 _PENDING = "machinery for this property is not built yet in this commit (work in progress; see DESIGN.md section 9)"
